@@ -193,6 +193,11 @@ class RustBlockingAsyncAnalyzer(RustBaseAnalyzer):
         for child in call_node.children:
             if child.type == "scoped_identifier":
                 return self.extract_node_text(child)
+            if child.type == "generic_function":
+                # std::fs::read::<&str>(p): the path is the function part of the turbofish form
+                for part in child.children:
+                    if part.type == "scoped_identifier":
+                        return self.extract_node_text(part)
         return ""
 
 
